@@ -444,6 +444,8 @@ _vbi_idl_demux_init		(vbi_idl_demux *	dx,
 
 	vbi_idl_demux_reset (dx);
 
+	dx->flags		= 0;
+
 	dx->callback		= callback;
 	dx->user_data		= user_data;
 
